@@ -6,6 +6,7 @@ import (
 	"bytes"
 	"fmt"
 	"go/ast"
+	"go/constant"
 	"go/format"
 	"go/parser"
 	"go/token"
@@ -319,6 +320,11 @@ func emptyFieldList(v reflect.Value) bool {
 func normLit(l *ast.BasicLit) string {
 	switch l.Kind {
 	case token.INT, token.FLOAT, token.IMAG:
+		// gofmt rewrites the spelling (0X1F -> 0x1F, 1E3 -> 1e3, 0O17 -> 0o17, 017i -> 17i): the same
+		// literal is the same kind and the same exact value
+		if v := constant.MakeFromLiteral(l.Value, l.Kind, 0); v.Kind() != constant.Unknown {
+			return l.Kind.String() + ":" + v.ExactString()
+		}
 		return strings.ToLower(l.Value)
 	}
 	return l.Value
